@@ -72,8 +72,8 @@ REQUIRED = ['set_ops', 'model_checks', 'get_after_set_checks', 'frame_checks',
             'aliased_tree_iter_checks']
 EXHAUSTIVE = {'quick': False, 'thorough': False}
 
-KEYS = ['a', 'b', 'c', 'd', 'e', 'f', 'model', 'pred', 0, 1, 2, 7]
-NEWKEYS = ['n1', 'n2', 'n3', 'n4', 'n5', 'n6', 11, 12, 13]
+KEYS = ['a', 'b', 'c', 'd', 'e', 'f', 'model', 'pred', 0, 1, 2, 7, 'SELF', 'SKIP']
+NEWKEYS = ['n1', 'n2', 'n3', 'n4', 'n5', 'n6', 11, 12, 13, 'SKIP', 'SELF']
 
 PROFILES = {
     'quick': {'max_depth': 4, 'max_children': 4, 'max_ops': 10},
